@@ -48,15 +48,15 @@ def sma (p : Nat) (c : Sig α) : Sig α := map (fun s => s / nat p) (movingSum p
 /-! ### trend.MovingMax / MovingMin (BST + count of inserted values, after fix F2) -/
 def cmpA : Cmp α := { le := Arith.le, lt := Arith.lt, eq := Arith.beq }
 
-def bstStep (pick : Tree α → α) (p : Nat) (st : Tree α × Nat) (c b : α) : (Tree α × Nat) × α :=
+def bstStep (pick : BTree α → α) (p : Nat) (st : BTree α × Nat) (c b : α) : (BTree α × Nat) × α :=
   let t := Bst.insert cmpA c st.1
   let (t', cnt) := if st.2 < p then (t, st.2 + 1) else ((Bst.remove cmpA b t).1, st.2)
   ((t', cnt), pick t')
 
 def movingMax (p : Nat) (c : Sig α) : Sig α :=
-  skip (p - 1) (scan2 (Tree α × Nat) (.nil, 0) (bstStep (Bst.maxD zero) p) c (delay p zero c))
+  skip (p - 1) (scan2 (BTree α × Nat) (.nil, 0) (bstStep (Bst.maxD zero) p) c (delay p zero c))
 def movingMin (p : Nat) (c : Sig α) : Sig α :=
-  skip (p - 1) (scan2 (Tree α × Nat) (.nil, 0) (bstStep (Bst.minD zero) p) c (delay p zero c))
+  skip (p - 1) (scan2 (BTree α × Nat) (.nil, 0) (bstStep (Bst.minD zero) p) c (delay p zero c))
 
 /-! ### trend.Ema / Rma / Smma: seed = SMA of the first `p` values (as MovingSum computes it) -/
 def smaSeed (p : Nat) (l : List α) : α := (l.foldl (fun s c => s + c - zero) zero) / nat p
@@ -69,24 +69,24 @@ def smma (p : Nat) (c : Sig α) : Sig α :=
   recur p (smaSeed p) (fun before n => ((before * (nat p - one)) + n) / nat p) c
 
 /-! ### trend.Wma: Map with a ring window, then Skip(idle) -/
-def wmaSum (p : Nat) (r : Ring α) : α :=
+def wmaSum (p : Nat) (r : RingBuf α) : α :=
   ((List.range p).foldl (fun sum i => sum + r.atIdx i * nat (i + 1) / nat p) zero) / nat 2
-def wmaStep (p : Nat) (r : Ring α) (v : α) : Ring α × α :=
+def wmaStep (p : Nat) (r : RingBuf α) (v : α) : RingBuf α × α :=
   let r' := (r.put v).1
   (r', if !r'.isFull then zero else wmaSum p r')
-def wma (p : Nat) (c : Sig α) : Sig α := skip (p - 1) (scan (Ring α) (Ring.new zero p) (wmaStep p) c)
+def wma (p : Nat) (c : Sig α) : Sig α := skip (p - 1) (scan (RingBuf α) (RingBuf.new zero p) (wmaStep p) c)
 
 /-! ### volatility.MovingStd: ring + running sum, emits only when the ring is full -/
-def stdOf (p : Nat) (r : Ring α) (sum : α) : α :=
+def stdOf (p : Nat) (r : RingBuf α) (sum : α) : α :=
   let sma := sum / nat p
   let sum2 := (List.range p).foldl (fun s i => s + Arith.sq (r.atIdx i - sma)) zero
   Arith.sqrt (sum2 / nat p)
-def stdStep (p : Nat) (st : Ring α × α) (n : α) : (Ring α × α) × α :=
+def stdStep (p : Nat) (st : RingBuf α × α) (n : α) : (RingBuf α × α) × α :=
   let (r', o) := st.1.put n
   let sum := st.2 - o + n
   ((r', sum), if r'.isFull then stdOf p r' sum else zero)
 def movingStd (p : Nat) (c : Sig α) : Sig α :=
-  skip (p - 1) (scan (Ring α × α) (Ring.new zero p, zero) (stdStep p) c)
+  skip (p - 1) (scan (RingBuf α × α) (RingBuf.new zero p, zero) (stdStep p) c)
 
 /-! ### helper.Since (count of positions the value has stayed the same), helper.Count -/
 def sinceStep (st : Option α × α) (n : α) : (Option α × α) × α :=
